@@ -1,10 +1,134 @@
 /-
   Driver/MainC15.lean — line-protocol driver of C15 (one line in, one line out).
-  STUB: to be filled by the C15 work package (see /verif/BUILDING.md).
+
+  A line is a whole history, so the driver is stateless between lines and a failing
+  line is its own replay:
+
+    h <class> rat=<0|1> ; <op> ; <op> ; …      operations on a `Model.Context`
+        reg r v | init | tw r v t | rw r v t | commit | rollback s |
+        rcommit | rrollback s | rflush | rd r t | rdf r t fr fv
+      answer per op, joined by " | ":  R[reg:value,…]  (ctx.Registers, sorted)  or  v=<value>
+      (`rd`: what `mv t6, r` computes through the REGENERATED `Gen.op_mv.Run`, i.e. through
+       `Gen.registerRead`; the direct call of `Gen.registerRead` must agree)
+
+    q L=<n> ; <op> ; …                          operations on a `Model.Rat Int Int` of length n
+        write k v | read k | find k le|lt t | values | findvalues le|lt t
+
+  The context is created with the regenerated `Gen.ratLength` (risc/app.go `ratLength`).
 -/
 import MajoranaVerif.Driver.Util
+import MajoranaVerif.Model.Txn
+import MajoranaVerif.Gen.Risc
+import MajoranaVerif.Gen.Opcodes
+open GoInt Model Driver
 
-def handleC15 (line : String) : String := "todo " ++ line
+namespace Driver.C15
+
+def showRegs (m : GoMap Reg Word) : String :=
+  "R[" ++ ",".intercalate ((sortBy (fun (p : Reg × Word) => (p.1 : Int)) m.entries).map
+    fun (r, v) => s!"{r}:{showI32 v}") ++ "]"
+
+/-- what `mv t6, r` computes with tag `t` on the model context -/
+def readOut (ctx : Context) (fwd : Gen.Forward) (r : Reg) (t : Word) : String :=
+  let direct := Gen.registerRead ctx fwd r t
+  match Gen.op_mv.Run { rd := Gen.Reg.T6, rs := r, forward := fwd } ctx {} 0 [] t with
+  | .ok e =>
+    if e.RegisterValue == direct then s!"v={showI32 e.RegisterValue}"
+    else s!"v={showI32 e.RegisterValue} registerRead={showI32 direct}"
+  | .error f => showFault f
+
+/-- all arguments of an operation are decimal integers (as the harness requires) -/
+def ints (l : List String) : Option (List Int) := l.mapM String.toInt?
+
+def isReg (i : Int) : Bool := decide (0 ≤ i) && decide (i < 32)
+
+def W (i : Int) : Word := BitVec.ofInt 32 i
+
+def ctxOp (ctx : Context) (f : List String) : Context × String :=
+  match f with
+  | [] => (ctx, "bad-op")
+  | op :: args =>
+    match ints args with
+    | none => (ctx, "bad-op")
+    | some a =>
+      let st (c : Context) : Context × String := (c, showRegs c.Registers)
+      let bad : Context × String := (ctx, "bad-op")
+      match op, a with
+      | "reg", [r, v] => if isReg r then st (ctx.writeRegister r.toNat (W v)) else bad
+      | "init", [] => st ctx.initRAT
+      | "tw", [r, v, t] => if isReg r then st (ctx.transactionWriteRegister r.toNat (W v) (W t)) else bad
+      | "rw", [r, v, t] => if isReg r then st (ctx.transactionRATWrite r.toNat (W v) (W t)) else bad
+      | "commit", [] => st ctx.commit
+      | "rollback", [s] => st (ctx.rollback (W s))
+      | "rcommit", [] => st ctx.ratCommit
+      | "rrollback", [s] => st (ctx.ratRollback (W s))
+      | "rflush", [] => st ctx.ratFlush
+      | "rd", [r, t] => if isReg r then (ctx, readOut ctx {} r.toNat (W t)) else bad
+      | "rdf", [r, t, fr, fv] =>
+        if isReg r && isReg fr then (ctx, readOut ctx { Register := fr.toNat, Value := W fv } r.toNat (W t)) else bad
+      | _, _ => bad
+
+def runOps {σ : Type} (step : σ → List String → σ × String) (s : σ) (ops : List (List String)) : List String :=
+  (ops.foldl (fun (acc : σ × List String) f =>
+    let (s', out) := step acc.1 f
+    (s', out :: acc.2)) (s, [])).2.reverse
+
+def showKV (l : List (Int × Int)) : String :=
+  "[" ++ ",".intercalate ((sortBy (fun (p : Int × Int) => p.1) l).map fun (k, v) => s!"{k}:{v}") ++ "]"
+
+def predOf (kind : String) (t : Int) : Option (Int → Bool) :=
+  match kind with
+  | "le" => some (fun v => decide (v ≤ t))
+  | "lt" => some (fun v => decide (v < t))
+  | _ => none
+
+def ratOp (r : Rat Int Int) (f : List String) : Rat Int Int × String :=
+  match f with
+  | ["write", k, v] =>
+    match ints [k, v] with
+    | some [k, v] => (r.write k v, "ok")
+    | _ => (r, "bad-op")
+  | ["read", k] =>
+    match ints [k] with
+    | some [k] => let (v, ex) := r.read k; (r, s!"v={v} ex={showB ex}")
+    | _ => (r, "bad-op")
+  | ["find", k, kind, t] =>
+    match ints [k, t] with
+    | some [k, t] =>
+      match predOf kind t with
+      | some p => let (v, ex) := r.find k p; (r, s!"v={v} ex={showB ex}")
+      | none => (r, "bad-op")
+    | _ => (r, "bad-op")
+  | ["values"] => (r, showKV r.values)
+  | ["findvalues", kind, t] =>
+    match ints [t] with
+    | some [t] =>
+      match predOf kind t with
+      | some p => (r, showKV (r.findValues p))
+      | none => (r, "bad-op")
+    | _ => (r, "bad-op")
+  | _ => (r, "bad-op")
+
+def handle (line : String) : String :=
+  match sections line with
+  | ("h" :: rest) :: ops =>
+    match (getKV (kvs rest) "rat") with
+    | some b =>
+      let ctx : Context :=
+        { committedRAT := Rat.new Gen.ratLength, transactionRAT := Rat.new Gen.ratLength, rat := (b == "1") }
+      " | ".intercalate (runOps ctxOp ctx ops)
+    | none => "bad-op"
+  | ("q" :: rest) :: ops =>
+    match (getKV (kvs rest) "L") with
+    | some l =>
+      if natOf l == 0 then "bad-op"
+      else " | ".intercalate (runOps ratOp (Rat.new (natOf l)) ops)
+    | none => "bad-op"
+  | _ => "bad-op"
+
+end Driver.C15
+
+def handleC15 (line : String) : String := Driver.C15.handle line
 
 partial def loopC15 (h : IO.FS.Stream) (out : IO.FS.Stream) : IO Unit := do
   let line ← h.getLine
